@@ -15,10 +15,14 @@ PROPERTY = "C19"
  D_HELLO, D_DISCREQ, D_GARBAGE, EOF, RESET, TURN, C_CONNECT, D_BADAUTH, D_HELLO_DISC, RESOLVE_OK) = range(22)
 NAMES = ["DRAIN", "TIMER", "C_START", "C_FINISH", "M_UP", "C_DISC", "C_FORCE", "C_CMD", "C_SUB", "C_REQ", "CONNECT_OK",
          "CONNECT_ERR", "D_HELLO", "D_DISCREQ", "D_GARBAGE", "EOF", "RESET", "TURN", "C_CONNECT", "D_BADAUTH", "D_HELLO_DISC", "RESOLVE_OK"]
-NA = len(NAMES)
+ALPHA_FULL = list(range(len(NAMES)))
+# quick tier: without the events that only add orderings of effects the others already produce
+ALPHA_Q = [DRAIN, TIMER, C_START, C_FINISH, M_UP, C_DISC, C_FORCE, C_CMD, C_REQ, CONNECT_OK, D_HELLO, D_DISCREQ, EOF, RESET, D_HELLO_DISC, RESOLVE_OK]
+ALPHA = ALPHA_Q if shard_int("QA", 0) else ALPHA_FULL
+NA = len(ALPHA)
 SH0 = shard_int("SH0", 0)
 SH1LO = shard_int("SH1LO", 0)
-SH1HI = shard_int("SH1HI", 20)
+SH1HI = shard_int("SH1HI", 22)
 CMODE = shard_int("CMODE", 0)  # 0: TCP connect completes at once; 1: stays pending until CONNECT_OK / CONNECT_ERR
 ONSTOP = shard_int("ONSTOP", 0)  # 1: the stop callback of the application reconnects at once
 PREFIX = shard_int("PREFIX", 0)  # concrete history before the symbolic events
@@ -99,9 +103,13 @@ class Run:
             self.dead.append(c)
 
     def settle_dying(self) -> None:
+        """after a loop iteration: a reset has been delivered; finished disconnect calls have closed."""
         for c in self.dying:
             self.kill(c)
         self.dying = []
+        self.settle_calls()
+
+    def settle_calls(self) -> None:
         for k, t, c in self.disc_calls:
             if t.done():
                 self.kill(c)
@@ -226,12 +234,12 @@ class Run:
             c = self.cur()
             t = self.eager("disc", cli.disconnect())
             self.disc_calls.append(("disc", t, c))
-            self.settle_dying()
+            self.settle_calls()
         elif ev == C_FORCE:
             c = self.cur()
             t = self.eager("disc", cli.disconnect(force=True))
             self.disc_calls.append(("force", t, c))
-            self.settle_dying()
+            self.settle_calls()
         elif ev == RESOLVE_OK:
             if not w.complete_resolve():
                 return False
@@ -349,7 +357,7 @@ def _run(events: list) -> bool:
         r.prefix(PREFIX)
         r.trace.append("|")
         for a in events:
-            ev = concretize(a, NA - 1)
+            ev = ALPHA[concretize(a, NA - 1)]
             if not r.apply(ev):
                 return True
             if r.viol is not None:
@@ -387,18 +395,19 @@ def h19_4(a0: int, a1: int, a2: int, a3: int) -> bool:
     return _run([a0, a1, a2, a3])
 
 
-def _enabled_first(prefix: int, cmode: int) -> list:
+def _enabled_first(prefix: int, cmode: int, alpha) -> list:
+    """indices (into alpha) of the first events that are enabled after a history."""
     global PREFIX, CMODE
     out = []
     old = (PREFIX, CMODE)
     PREFIX, CMODE = prefix, cmode
     try:
-        for ev in range(NA):
+        for i, ev in enumerate(alpha):
             r = Run()
             try:
                 r.prefix(prefix)
                 if r.apply(ev):
-                    out.append(ev)
+                    out.append(i)
             finally:
                 r.close()
     finally:
@@ -406,16 +415,16 @@ def _enabled_first(prefix: int, cmode: int) -> list:
     return out
 
 
-def _second_enabled(prefix: int, cmode: int, ev0: int, lo: int, hi: int) -> bool:
+def _second_enabled(prefix: int, cmode: int, i0: int, lo: int, hi: int, alpha) -> bool:
     global PREFIX, CMODE
     old = (PREFIX, CMODE)
     PREFIX, CMODE = prefix, cmode
     try:
-        for ev in range(lo, hi):
+        for j in range(lo, min(hi, len(alpha))):
             r = Run()
             try:
                 r.prefix(prefix)
-                if r.apply(ev0) and r.apply(ev):
+                if r.apply(alpha[i0]) and r.apply(alpha[j]):
                     return True
             finally:
                 r.close()
@@ -426,22 +435,26 @@ def _second_enabled(prefix: int, cmode: int, ev0: int, lo: int, hi: int) -> bool
 
 def shards(tier: str) -> list:
     out = []
-    fn = "h19_3" if tier == "quick" else "h19_4"
+    quick = tier == "quick"
+    fn = "h19_3" if quick else "h19_4"
+    alpha = ALPHA_Q if quick else ALPHA_FULL
+    n = len(alpha)
     combos = [(p, 0, 0) for p in range(12)] + [(0, 1, 0), (6, 1, 0), (1, 0, 1)]
     for p, cm, ons in combos:
-        # histories after which the client is idle again enable far more follow-ups: split the second event
-        splits = [(0, 5), (5, 10), (10, 15), (15, NA)] if (p == 6 or tier != "quick") else [(0, NA)]
-        for ev in _enabled_first(p, cm):
+        # thorough: split the second event as well
+        splits = [(0, n)] if quick else [(0, 5), (5, 10), (10, 15), (15, n)]
+        for i in _enabled_first(p, cm, alpha):
             for lo, hi in splits:
-                if len(splits) > 1 and not _second_enabled(p, cm, ev, lo, hi):
+                if len(splits) > 1 and not _second_enabled(p, cm, i, lo, hi, alpha):
                     continue  # nothing in this slice is enabled: the shard would be vacuous
-                out.append({"fn": fn, "env": {"PREFIX": p, "CMODE": cm, "SH0": ev, "SH1LO": lo, "SH1HI": hi, "ONSTOP": ons}, "cond_timeout": 600 if tier == "quick" else 2400, "path_timeout": 60,
-                            "desc": f"history '{PREFIX_NAMES[p]}'{' with a stop callback that reconnects at once' if ons else ''} (connect {'immediate' if cm == 0 else 'pending'}), first event {NAMES[ev]}, second in [{lo},{hi}), then {1 if tier == 'quick' else 2} more symbolic events"})
+                out.append({"fn": fn, "env": {"PREFIX": p, "CMODE": cm, "SH0": i, "SH1LO": lo, "SH1HI": hi, "ONSTOP": ons, "QA": 1 if quick else 0},
+                            "cond_timeout": 600 if quick else 2400, "path_timeout": 60,
+                            "desc": f"history '{PREFIX_NAMES[p]}'{' with a stop callback that reconnects at once' if ons else ''} (connect {'immediate' if cm == 0 else 'pending'}), first event {NAMES[alpha[i]]}, second in [{lo},{hi}), then {1 if quick else 2} more symbolic events ({n}-event alphabet)"})
     return out
 
 
-BOUNDS = {"quick": "9 concrete histories (incl. one or two earlier sessions/attempts) x 3 events from a 20-event alphabet of client calls (start, finish, connect, disconnect, force disconnect, command, subscription, request, macro 'bring a session up') and device/fault events",
+BOUNDS = {"quick": "12 concrete histories (incl. one or two earlier sessions/attempts; + pending TCP connect; + a stop callback that reconnects at once) x 3 events from a 16-event alphabet (thorough: 22 events) of client calls (start, finish, connect, disconnect, force disconnect, command, subscription, request, macro 'bring a session up') and device/fault events",
           "thorough": "same with 4 events"}
 OUTSIDE = ["sequences longer than the bound", "noise transport", "finish_connection() calls with no started attempt (API misuse, not quantified by the statement)"]
-ASSUMPTIONS = ["SimLoop/SimTransport model (see C05)", "monitor model: attempt in progress = a start/finish/connect call is pending or the newest connection is between the phases and not closed; session alive = newest connection is CONNECTED"]
+ASSUMPTIONS = ["SimLoop/SimTransport model (see C05)", "monitor model: attempt in progress = a start/finish/connect call is pending or the newest connection is between the phases and no close cause has taken effect on it; session alive = newest connection reached CONNECTED and no close cause (device DisconnectRequest / garbage / EOF, delivered reset, force disconnect, returned disconnect()) has taken effect on it -- tracked by the harness, not read from the connection"]
 EXPLANATION = "C19: at every start/connect call the acceptance is compared with the monitor's model; every command/subscription/request without a live session must raise a connection error and write nothing."
